@@ -1,6 +1,7 @@
 pub mod c01;
 pub mod c02;
 pub mod c04;
+pub mod c11;
 pub mod val;
 pub mod val_enum;
 
@@ -14,6 +15,7 @@ pub fn all() -> Vec<Box<dyn Prop>> {
         Box::new(val::ValProp { which: crate::valcheck::Which::C08 }),
         Box::new(val::ValProp { which: crate::valcheck::Which::C09 }),
         Box::new(val::ValProp { which: crate::valcheck::Which::C10 }),
+        Box::new(c11::C11),
     ]
 }
 
